@@ -242,6 +242,13 @@ class CacheEngine(Engine):
             # same python name under two versions is impossible in one class; same parameter names in two methods is the trap
             methods[1]['params'] = copy.deepcopy(methods[0]['params'])
             methods[1]['ignore'] = list(methods[0]['ignore'])
+        shared_deco = False
+        import random as _random
+        if nm >= 2 and _random.Random('sd:' + json.dumps(methods, sort_keys=True)).random() < 0.3:
+            # one decorator object (`versioned = cached(version=...)`) reused for two methods of the class, on the object's own cache
+            methods[1].update(ignore=list(methods[0]['ignore']), version=methods[0]['version'], source='attr')
+            methods[0]['source'] = 'attr'
+            shared_deco = True
         ctype = r.choice(['mem', 'json', 'json'])
         pools = {}
         for m in methods:
@@ -295,7 +302,7 @@ class CacheEngine(Engine):
                 op['store'] = {'v': r.choice([0, None, 'stored', [1], {'s': 1}])} if ctype != 'json_nonone' else {'v': 'stored'}
                 op['force_cache'] = r.random() < 0.3
             ops.append(op)
-        return {'engine': 'cachesim', 'kind': 'c16', 'ctype': ctype, 'methods': methods, 'ops': ops}
+        return {'engine': 'cachesim', 'kind': 'c16', 'ctype': ctype, 'methods': methods, 'ops': ops, 'shared_deco': shared_deco}
 
     # ------------------------------------------------------------------------------------------ execution
     def execute(self, scn, ctx):
@@ -436,7 +443,12 @@ class CacheEngine(Engine):
                         star = True
                     sig.append(p['name'] if p['default'] is None else f'{p["name"]}={p["default"]["v"]!r}')
                 names = [p['name'] for p in m['params']]
-                src.append(f'    @cached({", ".join(args)})')
+                if scn.get('shared_deco') and mi in (0, 1):
+                    if mi == 0:
+                        g['SHARED'] = tc.cached(**({'ignore_kwargs': m['ignore']} if m['ignore'] else {}), **({'version': m['version']} if m['version'] is not None else {}))
+                    src.append('    @SHARED')
+                else:
+                    src.append(f'    @cached({", ".join(args)})')
                 src.append(f'    def {m["name"]}({", ".join(sig)}):')
                 src.append(f'        return _body({m["name"]!r}, dict({", ".join(f"{n}={n}" for n in names)}), self.oid)')
             exec('\n'.join(src), g)
